@@ -17,7 +17,12 @@ TStart == /\ pc = 0 /\ l <= Len(Trace)
           /\ n' = Cur.n /\ ev' = Cur.expect_ev /\ failAt' = Cur.k
           /\ pc' = 1 /\ store' = "pre" /\ buffered' = 0 /\ published' = 0 /\ result' = "none"
           /\ UNCHANGED l
-TRun == pc > 0 /\ ~Returned /\ Next /\ UNCHANGED l
+\* the recorder knows whether the injected fault was swallowed (the call went on and succeeded), so the run is
+\* deterministic: a line that cannot be matched deadlocks the trace specification
+TRun == /\ pc > 0 /\ ~Returned /\ UNCHANGED l
+        /\ IF pc = failAt /\ pc < n
+           THEN (IF Cur.res = "ok" THEN OpSwallow ELSE Op)
+           ELSE Next
 \* the modelled call returned: its outcome must be the recorded one
 TFinish == /\ pc > 0 /\ Returned
            /\ Cur.res = result /\ Cur.cls = store /\ Cur.nev = published
